@@ -87,6 +87,9 @@ func c16(r *core.Run) {
 	})
 	var written []c16Written
 	steps := 1 + src.Intn(6)
+	if r.Tier == "thorough" && src.Bool(1, 3) {
+		steps = 6 + src.Intn(15)
+	}
 	for s := 0; s < steps; s++ {
 		src.Begin("op")
 		switch src.Pick(5, 3, 1) {
